@@ -21,6 +21,7 @@
 //! del.k.R         delete ref R of namespace k (R may be `sigrefs`)
 //! rmns.k          delete every ref of namespace k
 //! resign.k        k signs the refs currently in its namespace (new sigrefs commit, child of the current one)
+//! signsig.k.m     as resign, but the (validly signed) blob also lists refs/rad/sigrefs itself, pointing at mark m
 //! badsig.k        as resign, but the signature blob has one bit flipped
 //! rekey.k.j       as resign, but signed with j's key
 //! junk.k          move k's sigrefs to an unsigned commit (child of the current one) without refs/signature blobs
@@ -284,6 +285,8 @@ pub enum Verb {
     Del(usize, String),
     RmNs(usize),
     Resign(usize),
+    /// As `Resign`, but the signed blob also lists `refs/rad/sigrefs` itself, pointing at mark `m`.
+    SignSig(usize, String),
     BadSig(usize),
     Rekey(usize, usize),
     Junk(usize),
@@ -405,6 +408,7 @@ impl Scenario {
                     ("del", 4) => Verb::Del(k(2)?, r(3)?),
                     ("rmns", 3) => Verb::RmNs(k(2)?),
                     ("resign", 3) => Verb::Resign(k(2)?),
+                    ("signsig", 4) => Verb::SignSig(k(2)?, f[3].to_string()),
                     ("badsig", 3) => Verb::BadSig(k(2)?),
                     ("rekey", 4) => Verb::Rekey(k(2)?, k(3)?),
                     ("junk", 3) => Verb::Junk(k(2)?),
@@ -603,6 +607,7 @@ impl Exec<'_> {
         ns: usize,
         signer: usize,
         corrupt: bool,
+        self_entry: Option<git2::Oid>,
     ) -> Result<git2::Oid, E> {
         let raw = &st.raw;
         let key = &self.lab.keys[ns];
@@ -611,6 +616,10 @@ impl Exec<'_> {
             if name != SIGREFS {
                 map.insert(RefString::try_from(name.as_str())?, oid.into());
             }
+        }
+        // a hand-crafted blob that lists `refs/rad/sigrefs` itself (validly signed all the same)
+        if let Some(o) = self_entry {
+            map.insert(RefString::try_from(SIGREFS)?, o.into());
         }
         let refs = Refs::from(map);
         let canonical = refs.canonical();
@@ -666,13 +675,17 @@ impl Exec<'_> {
                 }
             }
             Verb::Resign(k) => {
-                self.write_sigrefs(st, *k, *k, false)?;
+                self.write_sigrefs(st, *k, *k, false, None)?;
+            }
+            Verb::SignSig(k, m) => {
+                let oid = *self.marks.get(m).ok_or_else(|| format!("unknown mark {m}"))?;
+                self.write_sigrefs(st, *k, *k, false, Some(oid))?;
             }
             Verb::BadSig(k) => {
-                self.write_sigrefs(st, *k, *k, true)?;
+                self.write_sigrefs(st, *k, *k, true, None)?;
             }
             Verb::Rekey(k, j) => {
-                self.write_sigrefs(st, *k, *j, false)?;
+                self.write_sigrefs(st, *k, *j, false, None)?;
             }
             Verb::Junk(k) => {
                 let raw = &st.raw;
